@@ -207,7 +207,27 @@ func c19Unique(p *load.Prog, r *oblig.Run) {
 				origins = append(origins, o)
 			}
 		}
-		ob := r.Add("R19.k", f.Name(), pos, "origin of the variable part of the names "+f.Name()+" returns")
+		key := f.Name()
+		if bad != "" {
+			// name every lossy step, so that a further one added to a known one is a new finding
+			var steps []string
+			for _, b := range f.Blocks {
+				if ret, ok := b.Instrs[len(b.Instrs)-1].(*ssa.Return); ok {
+					steps = append(steps, lossySteps(ret.Results[0], map[ssa.Value]bool{}, 0)...)
+				}
+			}
+			sort.Strings(steps)
+			var uniq []string
+			for i, st := range steps {
+				if i == 0 || st != steps[i-1] {
+					uniq = append(uniq, st)
+				}
+			}
+			if len(uniq) > 0 {
+				key += " via " + strings.Join(uniq, ", ")
+			}
+		}
+		ob := r.Add("R19.k", key, pos, "origin of the variable part of the names "+f.Name()+" returns")
 		if bad != "" {
 			ob.Fail(f.Name() + " builds a page name from " + bad + ": two different pages of this kind can be given the same file name, one overwrites the other and links lead to the wrong page")
 		} else {
@@ -333,4 +353,55 @@ func c19Tabs(p *load.Prog, r *oblig.Run) {
 			o.OK("tab and page under {" + strings.Join(tabs[n][0].guards, ",") + "}")
 		}
 	}
+}
+
+// lossySteps lists the calls in the derivation of a page name that can map two inputs to one output.
+func lossySteps(v ssa.Value, seen map[ssa.Value]bool, depth int) []string {
+	if depth > 10 || seen[v] {
+		return nil
+	}
+	seen[v] = true
+	var out []string
+	switch x := v.(type) {
+	case *ssa.MakeInterface:
+		return lossySteps(x.X, seen, depth+1)
+	case *ssa.ChangeType:
+		return lossySteps(x.X, seen, depth+1)
+	case *ssa.BinOp:
+		return append(lossySteps(x.X, seen, depth+1), lossySteps(x.Y, seen, depth+1)...)
+	case *ssa.Phi:
+		for _, e := range x.Edges {
+			out = append(out, lossySteps(e, seen, depth+1)...)
+		}
+	case *ssa.Call:
+		cal := x.Call.StaticCallee()
+		if cal == nil {
+			return nil
+		}
+		args := x.Call.Args
+		if su.CalleeIs(&x.Call, "fmt", "Sprintf") {
+			if elems, ok := variadicElems(x.Call.Args[1]); ok {
+				args = elems
+			}
+		} else if cal.Pkg != nil && cal.Pkg.Pkg.Path() == load.PkgHTML && len(cal.Blocks) > 0 {
+			// helpers of the package are looked through
+			for _, b := range cal.Blocks {
+				if ret, ok := b.Instrs[len(b.Instrs)-1].(*ssa.Return); ok && len(ret.Results) == 1 {
+					out = append(out, lossySteps(ret.Results[0], seen, depth+1)...)
+				}
+			}
+		} else if !(cal.Pkg != nil && load.IsRepoPkgPath(cal.Pkg.Pkg.Path())) {
+			name := cal.Name()
+			if recv := cal.Signature.Recv(); recv != nil {
+				name = types.TypeString(recv.Type(), func(p *types.Package) string { return p.Name() }) + "." + cal.Name()
+			} else if cal.Pkg != nil {
+				name = cal.Pkg.Pkg.Name() + "." + name
+			}
+			out = append(out, name)
+		}
+		for _, a := range args {
+			out = append(out, lossySteps(a, seen, depth+1)...)
+		}
+	}
+	return out
 }
